@@ -79,6 +79,7 @@ def gen(rng, tier="quick", prop="C06"):
                             if rng.chance(0.6)),
            "kinds": sorted(rng.sample(FREE_KINDS, rng.choice([1, 2, 4, 7]))), "margins": False, "needles": False,
            "degenerate": False, "lattice": False}
+    cfg["int_frames"] = rng.chance(0.3)  # frames are Hashable: free colliders registered under integer ids
     if prop == "C19":
         cfg["support_budget"] = 1000
     faults = set(cfg["faults"])
@@ -106,25 +107,40 @@ def gen(rng, tier="quick", prop="C06"):
         sc = rob["scale"]
         # keep free colliders of the robot's size so that they interact with it
         spec = _rescale(spec, sc * rng.choice([0.2, 0.5, 1.0]))
-        frame = "free%d" % nfree
+        frame = (1000 + nfree) if cfg.get("int_frames") else "free%d" % nfree
         nfree += 1
+        mine = [f for (bb, f) in free_parent if bb == b]
+        replace = bool(mine) and rng.chance(0.1)
+        if replace:
+            frame = rng.choice(mine)  # add_collider for a frame that already has a collider replaces it
+            nfree -= 1
         parent = "origin" if rng.chance(0.6) else rng.choice(rob["links"])
+        if replace:
+            parent = free_parent[(b, frame)]
         T = np.eye(4)
         T[:3, :3] = rng.rot()
         T[:3, 3] = [rng.gauss(0, sc) for _ in range(3)]
-        others = frames[b]
+        others = [f for f in frames[b] if f != frame]
         wl = [frame] + (rng.sample(others, rng.randint(0, min(3, len(others)))) if others and rng.chance(0.5) else [])
         wl_into = rng.sample(others, rng.randint(0, min(2, len(others)))) if others and rng.chance(0.3) else []
-        ops.append({"op": "free", "b": b, "frame": frame, "parent": parent, "spec": spec, "pose": (T + 0.0).tolist(),
-                    "wl": wl, "wl_into": wl_into})
-        frames[b] = sorted(frames[b] + [frame])
+        op = {"op": "free", "b": b, "frame": frame, "parent": parent, "spec": spec, "pose": (T + 0.0).tolist(),
+              "wl": wl, "wl_into": wl_into}
+        if replace:
+            op["replace"] = True
+        elif mine and spec["kind"] != "hull" and rng.chance(0.15):
+            op["share"] = rng.choice(mine)  # constructed from the very array object another collider was built from
+        ops.append(op)
+        if frame not in frames[b]:
+            frames[b] = sorted(frames[b] + [frame], key=str)
         free_parent[(b, frame)] = parent
 
     def gen_change(b):
         rob = robots[b]
         r = rng.random()
-        sl = {q["sliver"] for q in sliver_queries.get(b, [])}
-        frees = [f for (bb, f) in free_parent if bb == b and f not in sl and ("free%d" % (int(f[4:]) + 1)) not in sl]
+        sl = set()
+        for q in sliver_queries.get(b, []):
+            sl.update(q["sliver_pair"])
+        frees = [f for (bb, f) in free_parent if bb == b and f not in sl]
         if r < 0.7 and rob["joints"]:
             j = rng.choice(rob["joints"])
             c = rng.random()
@@ -205,19 +221,20 @@ def gen(rng, tier="quick", prop="C06"):
             return
         names = []
         for cc in (c, c2):
-            frame = "free%d" % nfree
+            frame = (1000 + nfree) if cfg.get("int_frames") else "free%d" % nfree
             nfree += 1
             T = np.eye(4)
             T[:3, 3] = cc
             ops.append({"op": "free", "b": b, "frame": frame, "parent": "origin", "spec": {"kind": "sphere", "radius": r},
                         "pose": T.tolist(), "wl": [frame], "wl_into": []})
-            frames[b] = sorted(frames[b] + [frame])
+            frames[b] = sorted(frames[b] + [frame], key=str)
             free_parent[(b, frame)] = "origin"
             names.append(frame)
         Tq = np.eye(4)
         Tq[:3, 3] = q
         sliver_queries.setdefault(b, []).append({"op": "qcol", "b": b, "spec": {"kind": "sphere", "radius": qr},
-                                                 "pose": Tq.tolist(), "wl": [], "sliver": names[1]})
+                                                 "pose": Tq.tolist(), "wl": [], "sliver": names[1],
+                                                 "sliver_pair": names})
 
     if "free" in faults:
         for b in range(nb):
@@ -296,13 +313,17 @@ class Model:
         if e is None:
             return False
         if k == "free":
-            e["specs"][op["frame"]] = op["spec"]
-            e["free"][op["frame"]] = op.get("parent", "origin")
+            e["specs"][str(op["frame"])] = op["spec"]
+            e["free"][str(op["frame"])] = op.get("parent", "origin")
+            if op.get("share") is not None or op.get("replace"):
+                # built at another collider's pose / the replaced collider's leaf is still in the tree: settled by
+                # the next update_collider_poses
+                e["pending"] = True
             # the collider is built at the manager's current transform and inserted at once; the other colliders'
             # pending state is unchanged
             return True
         if k == "move":
-            if op["frame"] not in e["free"]:
+            if str(op["frame"]) not in e["free"]:
                 return False
             e["pending"] = True
         elif k in ("joint", "base", "remount"):
@@ -434,7 +455,7 @@ def judge(plan, jr, prop="C06"):
             return [_v(prop, "R.frames", k, "colliders known to the BVH %s differ from the registered ones %s" % (
                 sorted(state), sorted(specs)))]
         if kind == "qcol":
-            exp = sorted(f for f, s in state.items() if _ov(s["aabb"], o["q"]) and f not in set(op.get("wl", [])))
+            exp = sorted(f for f, s in state.items() if _ov(s["aabb"], o["q"]) and f not in {str(x) for x in op.get("wl", [])})
             if sorted(o["got"]) != exp or len(set(o["got"])) != len(o["got"]):
                 return [_v(prop, "R.broad.collider", k, "aabb_overlapping_colliders returned %s, brute force over the "
                            "current AABBs gives %s" % (sorted(o["got"]), exp))]
@@ -503,7 +524,8 @@ def signature(plan):
             sig.append("R%d:%d:%s" % (op["b"], len(op["geoms"]), op["urdf"].count("<joint")))
             sig.append("".join(sorted(s["kind"][0] for s in op["geoms"].values())))
         elif k == "free":
-            sig.append("F%s%s" % (op["spec"]["kind"][:2], "o" if op.get("parent") == "origin" else "l"))
+            sig.append("F%s%s%s%s" % (op["spec"]["kind"][:2], "o" if op.get("parent") == "origin" else "l",
+                                      "r" if op.get("replace") else "", "s" if op.get("share") is not None else ""))
         elif k == "joint":
             sig.append("j" + op["j"][1:])
         elif k == "update":
@@ -545,6 +567,12 @@ def stats(plan, jr):
         elif kind == "free":
             inc("fault.order.free_collider_added")
             fault = True
+            if op.get("replace"):
+                inc("fault.order.collider_replaced")
+            if op.get("share") is not None:
+                inc("fault.pose-delivery.shared_constructor_array")
+            if not isinstance(op["frame"], str):
+                inc("probe.integer_frame_id")
             if op.get("parent") != "origin":
                 inc("probe.free_collider_attached_to_link")
             if op.get("wl_into") or len(op.get("wl", [])) > 1:
@@ -588,7 +616,7 @@ def stats(plan, jr):
                     inc("probe.qcol_hits", len(o["got"]))
                     if op.get("sliver"):
                         inc("probe.sliver_query")
-                        if op["sliver"] in o["got"]:
+                        if str(op["sliver"]) in o["got"]:
                             inc("probe.sliver_query_hit_by_touching_face")
                 if kind == "qother":
                     inc("probe.qother_pairs", len(o["pairs"]))
